@@ -88,6 +88,18 @@ Theorem C19_mangle_roundtrip : forall s n mvars,
     to_local g n mvars = Ok (visible_vars s ++ hidden_vars s)%list.
 Proof. exact mangle_roundtrip. Qed.
 
+Example C19_mangle_roundtrip_example :
+  NoDup (keys [("u", 1%Z); ("_goal", 2%Z)]) /\
+  own_names_clean "foo" (keys [("u", 1%Z); ("_goal", 2%Z)]) /\
+  to_global [("u", 1%Z); ("_goal", 2%Z)] "foo" = Ok [("u", 1%Z); ("foo_goal", 2%Z)] /\
+  to_local [("u", 1%Z); ("foo_goal", 2%Z)] "foo" ["u"; "_goal"; "w"]
+  = Ok [("u", 1%Z); ("_goal", 2%Z)].
+Proof.
+  split; [repeat constructor; simpl; intuition discriminate|].
+  split; [|split; reflexivity].
+  intros k [<-|[<-|[]]]; simpl; intros; (reflexivity || discriminate).
+Qed.
+
 (* the local view is exact: for a global state without keys starting with
    "_", `_to_local_state` never signals a spurious collision and a component
    named n sees under k exactly the global "n ++ k" if k is hidden, the
@@ -264,3 +276,4 @@ Print Assumptions C19_recorded_step_satisfies_action.
 Print Assumptions C19_stepper_machine_ok.
 Print Assumptions C19_mangle_refuted.
 Print Assumptions C19_hypotheses_satisfiable.
+Print Assumptions C19_mangle_roundtrip_example.
